@@ -1870,6 +1870,11 @@ type Data struct {
 	mlMu sync.RWMutex // For atomic access of MaxLabel and MaxRepoLabel
 
 	voxelMu sync.Mutex // Only allow voxel-level label mutation ops sequentially.
+
+	// Only allow body-level mutations (merge, renumber, cleave, split) sequentially: each reads
+	// whole label indices, changes them and stores them back, and the index shard locks only
+	// cover the single reads and writes, not the span in between.
+	bodyMu sync.Mutex
 }
 
 // --- Override of DataService interface ---
